@@ -427,6 +427,35 @@ def enumerate_short(tier: str) -> Any:
                 yield {"proto": proto, "sched": 0, "seq": list(seq)}
 
 
+@st.composite
+def guided_strategy(draw: Any, proto: str) -> Dict[str, Any]:
+    """Model-guided walk: at each step the reference automaton is asked which messages are valid
+    in the state reached so far; two times out of three one of those is taken, otherwise any
+    message. Uniform sequences rarely get past the second valid message; these reach the deep
+    states (TRAILERS, CLOSED, CONNECTED, RESPONSE) and then try the invalid ones there."""
+    ws = proto.startswith("ws")
+    table = WS_MSGS if ws else HTTP_MSGS
+    names = sorted(table)
+    state = "HANDSHAKE" if ws else "REQUEST"
+    seq: List[str] = []
+    for _ in range(draw(st.integers(2, 10))):
+        valid = [n for n in names
+                 if (ws_expect(state, n) if ws else http_expect(state, n, proto))[0] == "ok"]
+        if valid and draw(st.integers(0, 2)) > 0:
+            name = draw(st.sampled_from(valid))
+        else:
+            name = draw(st.sampled_from(names))
+        verdict, nstate = ws_expect(state, name) if ws else http_expect(state, name, proto)
+        seq.append(name)
+        if verdict == "ok":
+            state = nstate
+        elif verdict == "any":
+            if nstate == "?":
+                break  # the model cannot follow any further
+            state = nstate
+    return {"proto": proto, "sched": draw(st.integers(0, 999)), "seq": seq}
+
+
 def parts() -> List[Part]:
     ps = [Part("short", run_case, enumerate=enumerate_short,
                rule="all sequences of length <= 2 (thorough: <= 3) over a 10-12 message core "
@@ -434,4 +463,9 @@ def parts() -> List[Part]:
     for proto, q in (("h1", 500), ("h2", 500), ("ws1", 350), ("ws2", 350)):
         ps.append(Part(proto, run_case, strategy=(lambda p=proto: case_strategy(p)), quick=q,
                        thorough=q * 60, rule=f"random sequences of 1..6 messages, {proto}"))
+    for proto, q in (("h1", 300), ("h2", 500), ("ws1", 300), ("ws2", 300)):
+        ps.append(Part("guided_" + proto, run_case,
+                       strategy=(lambda p=proto: guided_strategy(p)), quick=q, thorough=q * 60,
+                       rule=f"{proto}: walks of up to 10 sends steered by the reference automaton "
+                            f"into its deep states"))
     return ps
